@@ -405,6 +405,35 @@ Section Ser.
     match compute_hash fields with Ok h => Ok (task_type ++ "-" ++ h) | Err e => Err e end.
 End Ser.
 
+(* ------------------------------------------------------------------ C06: task definitions and the result cache.
+   A task as the cache sees it: the task type and the (name, value) pairs Task._compute_hashes hashes (inputs that
+   are set, the `function` / `executable` field, the Outputs class), plus what a task also consists of but what is
+   in none of those values: per-field metadata of the input fields (argstr, position, sep, formatter).  The closure
+   cells and globals of a function sit in the [hidden] part of its VFunc value. *)
+Record taskdef := { t_type : string; t_fields : list (string * pyval); t_meta : list (string * string) }.
+
+Definition identity (H : string -> string) (t : taskdef) : res string := checksum H (t_type t) (t_fields t).
+
+Section Cache.
+  Context {T O : Type}.
+  Variable ident : T -> string.        (* <cache_root>/<checksum> *)
+  Variable run : T -> O.               (* executing the task now *)
+  Definition store := list (string * O).
+  Fixpoint find (d : string) (s : store) : option O :=
+    match s with [] => None | (k, o) :: r => if String.eqb k d then Some o else find d r end.
+  (* Job.run: return the cached result when <root>/<checksum> holds one, else run and save *)
+  Definition submit (s : store) (t : T) : O * store :=
+    match find (ident t) s with
+    | Some o => (o, s)
+    | None => (run t, (ident t, run t) :: s)
+    end.
+  Fixpoint submit_all (s : store) (ts : list T) : list O * store :=
+    match ts with
+    | [] => ([], s)
+    | t :: r => let (o, s1) := submit s t in let (os, s2) := submit_all s1 r in (o :: os, s2)
+    end.
+End Cache.
+
 (* byte strings written in hex by the harness: hx "00ff41" *)
 Definition hexval (c : ascii) : nat :=
   let n := nat_of_ascii c in if Nat.leb 97 n then n - 87 else n - 48.
